@@ -51,7 +51,7 @@ func init() {
 			{Name: "C01-EOF", Floor: 40, Doc: "every token-driven loop of the parser leaves at end of input: its condition is false there, or no path through its body returns to the head (cursor predicates evaluated three-valued from accessor contracts that are themselves checked)", Run: c01EOF},
 			{Name: "C01-PROG", Floor: 20, Doc: "every cursor-bounded loop of the lexer strictly advances its cursor on each path back to the loop head", Run: c01Prog},
 			{Name: "C01-PANIC", Floor: 1, Doc: "no explicit panic() in lexer, parser or token can be reached with a possible value (type-switch defaults are dead when every implementation is a case)", Run: c01Panic},
-			{Name: "C01-NIL", Floor: 8, Doc: "operator-node constructors replace a nil operand before storing it, so an accepted source with a missing operand ends in a script error, not a nil dereference; statement nodes with witnessed crashes are listed", Run: c01Nil},
+			{Name: "C01-NIL", Floor: 6, Doc: "operator-node constructors replace a nil operand before storing it, so an accepted source with a missing operand ends in a script error, not a nil dereference; statement nodes with witnessed crashes are listed", Run: c01Nil},
 			{Name: "C01-REC", Floor: 1, Doc: "every recursive component of the parser's call graph passes a depth guard", Run: c01Rec},
 			{Name: "C01-IDX", Floor: 60, Doc: "every s[i] / s[i:j] over strings and slices in lexer and parser is within bounds on every path (zone abstract interpretation; unresolved sites listed construct by construct)", Run: c01Idx},
 		},
